@@ -23,7 +23,7 @@ type Out struct {
 	UDef   []DefA  `json:"udef"` // zero or one element
 	UValid bool    `json:"uvalid"`
 	FOk    bool    `json:"fok"`
-	Filt   []FiltA `json:"filt"` // zero or one element
+	Filt   []FiltA `json:"filt"`  // zero or one element
 	Match  string  `json:"match"` // "true" | "false" | "error" | "panic" | "hang" | "crash" | "skip"
 	Alloc  int     `json:"alloc"`
 	Note   string  `json:"note"`
